@@ -221,10 +221,26 @@ _T = {
     "empty": ("Polygon", []),
 }
 _T["collection"] = ("GeometryCollection", [_T["point"], _T["multiline"], _T["polygon-hole"]])
+# multi-geometries / collections with exactly ONE part: must stay multi with one part (never the bare part)
+_T["multipoint-1"] = ("MultiPoint", [(1, 2)])
+_T["multiline-1"] = ("MultiLineString", [[(-2, 0), (0, 0), (0, 5), (5, 2)]])
+_T["multipolygon-1"] = ("MultiPolygon", [[_sq(-2, -2, 5, 5), [(0, 0), (0, 2), (2, 2), (1, 0), (0, 0)]]])
+_T["collection-1"] = ("GeometryCollection", [_T["polygon-hole"]])
+# consecutive repeated vertices (at the start, inside, at the end; in shells and holes): every original
+# vertex has to come back, repeated ones as often as they were given (sequence embedding)
+_T["line-dup"] = ("LineString", [(-2, -2), (-2, -2), (0, -2), (0, 5), (0, 5), (0, 5), (5, 5), (2, 1), (2, 1)])
+_T["ring-dup"] = ("LinearRing", [(0, 0), (0, 5), (0, 5), (5, 2), (2, 0), (2, 0), (0, 0)])
+_T["polygon-dup"] = ("Polygon", [[(-2, -2), (-2, 5), (-2, 5), (5, 5), (5, -2), (-2, -2)],
+                                 [(0, 0), (0, 2), (2, 2), (2, 2), (1, 0), (0, 0)]])
+_T["multiline-1-dup"] = ("MultiLineString", [[(-2, 0), (0, 0), (0, 0), (0, 5), (5, 2)]])
 
 KINDS = ("point", "multipoint", "line", "ring", "polygon", "polygon-hole", "multiline",
-         "multipolygon", "collection", "empty")
-AREA_KINDS = ("polygon", "polygon-hole", "multipolygon", "collection")  # area > 0: "auto" is defined
+         "multipolygon", "collection", "empty",
+         "multipoint-1", "multiline-1", "multipolygon-1", "collection-1",
+         "line-dup", "ring-dup", "polygon-dup", "multiline-1-dup")
+# area > 0: "auto" is defined
+AREA_KINDS = ("polygon", "polygon-hole", "multipolygon", "collection", "multipolygon-1", "collection-1",
+              "polygon-dup")
 
 # the 8 symmetries of the square, about the grid origin (so x=0 / y=0 lines stay on the axes)
 D4 = ((1, 0, 0, 1), (0, -1, 1, 0), (-1, 0, 0, -1), (0, 1, -1, 0),
@@ -1093,6 +1109,171 @@ def run_long(case):
     return r
 
 
+# ---------------------------------------------------------------------------------------------
+# slice: definitions that carry a STALE embedded id, x history of reads on the CRS objects
+# ---------------------------------------------------------------------------------------------
+# (name, EPSG code the text names in its trailing ID[...], (text, replacement) or None for the unedited control)
+STALE_DEFS = (
+    ("3577-lon140", 3577, ('PARAMETER["Longitude of false origin",132,', 'PARAMETER["Longitude of false origin",140,')),
+    ("32633-fe0", 32633, ('PARAMETER["False easting",500000,', 'PARAMETER["False easting",0,')),
+    # (EPSG:3857 is no candidate: PROJ ignores edited parameters of its pseudo-Mercator method)
+    ("3395-fe1e6", 3395, ('PARAMETER["False easting",0,', 'PARAMETER["False easting",1000000,')),
+    ("3577-unedited", 3577, None),
+    ("32633-unedited", 32633, None),
+    ("3395-unedited", 3395, None),
+)
+# placements (origin x, origin y, step) of the geometry by CRS family and by which CRS it is given in
+STALE_PLACES = {
+    (3577, "edited"): (0.0, -3e6, 1e5), (3577, "named"): (0.0, -3e6, 1e5), (3577, "lonlat"): (135.0, -25.0, 1.0),
+    (32633, "edited"): (0.0, 5e6, 2e4), (32633, "named"): (5e5, 5e6, 2e4), (32633, "lonlat"): (15.0, 45.0, 0.2),
+    (3395, "edited"): (0.0, 0.0, 1e5), (3395, "named"): (0.0, 0.0, 1e5), (3395, "lonlat"): (0.0, 0.0, 1.0),
+}
+STALE_HIST = ("cold", "src.epsg", "dst.epsg", "both.epsg", "eq-first", "to_epsg+eq", "str-repr-hash-authority")
+STALE_KINDS = ("point", "line", "polygon-hole", "multipolygon-1", "collection")
+_STALE = {}
+
+
+def stale_text(di):
+    """-> (definition text, pyproj CRS built from that text by the check, genuinely the named CRS?)"""
+    if di not in _STALE:
+        name, code, edit = STALE_DEFS[di]
+        text = pyproj.CRS.from_epsg(code).to_wkt()
+        if edit is not None:
+            if text.count(edit[0]) != 1:
+                raise AssertionError(f"harness: cannot edit the WKT of EPSG:{code} for {name}")
+            text = text.replace(edit[0], edit[1])
+        if not text.rstrip().endswith(f'ID["EPSG",{code}]]'):
+            raise AssertionError(f"harness: {name} does not end with the id of EPSG:{code}")
+        P = pyproj.CRS.from_wkt(text)
+        same = P == pp(code)
+        if same != (edit is None) or (edit is not None and P.to_epsg() is not None):
+            raise AssertionError(f"harness: {name}: pyproj says same={same}, to_epsg={P.to_epsg()}")
+        _STALE[di] = (text, P, same)
+    return _STALE[di]
+
+
+def gen_stale(tier):
+    def gen():
+        for di in range(len(STALE_DEFS)):
+            for partner in ("named", "lonlat"):
+                for direction in ("from-edited", "to-edited"):
+                    for hist in STALE_HIST:
+                        for tform in ("crs-object", "text"):
+                            for kind in STALE_KINDS:
+                                for res0 in (None, 2.5):
+                                    yield (di, partner, direction, hist, tform, kind, res0)
+
+    return gen
+
+
+def _stale_tr(di, partner_code, direction):
+    k = ("stale", di, partner_code, direction)
+    if k not in _TR:
+        _, P, _ = stale_text(di)
+        a, b = (P, pp(partner_code)) if direction == "from-edited" else (pp(partner_code), P)
+        _TR[k] = (pyproj.Transformer.from_crs(a, b, always_xy=True),
+                  pyproj.Transformer.from_crs(b, a, always_xy=True))
+    return _TR[k]
+
+
+def _tr_coords(tr, coords):
+    if not coords:
+        return []
+    X, Y = tr.transform(np.asarray([c[0] for c in coords], dtype="float64"),
+                        np.asarray([c[1] for c in coords], dtype="float64"))
+    return list(zip(X.tolist(), Y.tolist()))
+
+
+def run_stale(case):
+    di, partner, direction, hist, tform, kind, res0 = case
+    name, code, edit = STALE_DEFS[di]
+    text, P_def, genuinely_named = stale_text(di)
+    pcode = code if partner == "named" else 4326
+    fwd, inv = _stale_tr(di, pcode, direction)
+    if direction == "from-edited":
+        src_spec, dst_spec, P_dst = text, f"EPSG:{pcode}", pp(pcode)
+        place = STALE_PLACES[(code, "edited")]
+    else:
+        src_spec, dst_spec, P_dst = f"EPSG:{pcode}", text, P_def
+        place = STALE_PLACES[(code, partner)]
+    ox, oy, step = place
+    shp = make_shape(kind, 0, ox, oy, step)
+    res = None if res0 is None else res0 * step
+    same_crs = genuinely_named and partner == "named"
+
+    src_crs = CRS(src_spec)
+    g = Geometry(shp, src_crs)
+    dst_crs = CRS(dst_spec)
+    # history: reads on the CRS objects before the conversion; none of them may change what to_crs does
+    s_ = g.crs
+    if hist in ("src.epsg", "both.epsg"):
+        _ = s_.epsg
+    if hist in ("dst.epsg", "both.epsg"):
+        _ = dst_crs.epsg
+    if hist == "eq-first":
+        _ = (s_ == dst_crs, dst_crs == s_, s_ != dst_crs)
+    if hist == "to_epsg+eq":
+        _ = (s_.to_epsg(), dst_crs.to_epsg(), s_ == dst_crs, dst_crs == s_)
+    if hist == "str-repr-hash-authority":
+        _ = [(str(c), repr(c), hash(c), c.authority) for c in (s_, dst_crs)]
+    target = dst_crs if tform == "crs-object" else dst_spec
+
+    r = R(outcome=f"{'same-crs' if same_crs else ('stale-id' if edit else 'unedited')}:{partner}:{direction}:{hist}")
+    fail = Once(r)
+    tag = f"to_crs:{'stale-id' if edit else 'unedited-wkt'}:{partner}:{hist}"
+    call = (f"[{name}: WKT of EPSG:{code}{' with ' + edit[1] if edit else ''}, trailing ID kept] {direction}, partner "
+            f"EPSG:{pcode}, history {hist}, target given as {tform}: Geometry({shp.wkt[:160]}, <source>)"
+            f".to_crs(<target>, resolution={res!r})")
+    out = g.to_crs(target, res)
+    pin = paths(shp)
+    if same_crs:
+        r.outcome += ":same-object" if out is g else ":copy"
+        if out is not g and [tuple(x) for x in paths(out.geom)] != [tuple(x) for x in pin]:
+            fail(f"{tag}:same-crs:geometry-changed", f"{call}: source and target are the same CRS but the geometry changed")
+        return r
+    # the two definitions are different CRSs: the input must not come back
+    pout = paths(out.geom)
+    if out.geom.geom_type != shp.geom_type or signature(pin) != signature(pout):
+        fail(f"{tag}:structure-changed", f"{call}: {signature(pin)} became {signature(pout)}")
+        return r
+    lbl_ok = out.crs is not None and out.crs.proj == P_dst
+    if not lbl_ok:
+        fail(f"{tag}:result-crs", f"{call}: result is labelled {str(out.crs)[:80]}, not with the target definition")
+    n_exact = n_tol = 0
+    for (pid, pkind, cin), (_, _, cout) in zip(pin, pout):
+        want = _tr_coords(fwd, cin)
+        if res is None or pkind in ("pt", "empty"):
+            if len(cout) != len(cin):
+                fail(f"{tag}:vertex-count-changed", f"{call} path {pid}: {len(cin)} vertices became {len(cout)}")
+                continue
+            for k, (a, b) in enumerate(zip(cout, want)):
+                if a == b:
+                    n_exact += 1
+                elif _close(a, b, REL):
+                    n_tol += 1
+                else:
+                    unchanged = out is g or a == cin[k]
+                    fail(f"{tag}:{'input-returned-unprojected' if unchanged else 'vertex-differs-from-pyproj'}",
+                         f"{call} path {pid} vertex #{k} {cin[k]}: got {a}; pyproj.Transformer.from_crs between the "
+                         f"two definitions (CRS objects built by the check from the same texts, always_xy=True) "
+                         f"gives {b}" + (" - the input came back untouched" if unchanged else ""))
+                    break
+            continue
+        idx, nfound = match_originals(cin, cout, lambda k, p, o, want=want: _close(o, want[k], REL))
+        if idx is None:
+            unchanged = out is g or list(cout) == list(cin)
+            fail(f"{tag}:{'input-returned-unprojected' if unchanged else 'original-vertex-lost'}",
+                 f"{call} path {pid}: projected original vertex #{nfound} {cin[nfound]} -> {want[nfound]} not found "
+                 f"(in order) in the output ({len(cout)} vertices, first {cout[0]})")
+            continue
+        back = _tr_coords(inv, cout)
+        for i, j in enumerate(idx):
+            back[j] = cin[i]
+        judge_dense_path(fail, tag, call, pid, cin, back, idx, res, REL_RT)
+    r.counts = {"vertices-bit-exact": n_exact, "vertices-within-tolerance": n_tol}
+    return r
+
+
 def slices(tier):
     return [
         e1.Slice("to_crs-after-churn", gen_churn(tier), run_churn,
@@ -1107,11 +1288,17 @@ def slices(tier):
                  "all ordered vertex pairs of {-2,-1,0,1,2,5}^2 (incl. zero-length) x scale x offset x resolution; "
                  "densify() and line.segmented(); thorough adds all two-edge paths on {-1,0,2}^2"),
         e1.Slice("segmented-kinds", gen_seg_kinds(tier), run_seg_kinds,
-                 "10 kinds x 8 symmetries x scale x offset x resolution x {no crs, crs}"),
+                 "18 kinds (incl. single-part multi-geometries and repeated consecutive vertices) x 8 symmetries x scale x "
+                 "offset x resolution x {no crs, crs}"),
         e1.Slice("to_crs", gen_to_crs(tier), run_to_crs,
                  "8 directed CRS pairs x placements inside both valid areas x kinds x symmetries x "
                  "resolution {None, inf, 4 finite, auto (area>0)} x target spelling x {check_and_fix} x {wrapdateline, "
                  "geographic destination}"),
+        e1.Slice("to_crs-stale-id", gen_stale(tier), run_stale,
+                 "6 definitions (WKT of EPSG 3577/32633/3395 with one projection parameter edited and the trailing "
+                 "ID kept; unedited controls) x partner {the EPSG it names, 4326} x direction x 7 histories of reads on "
+                 "the CRS objects (.epsg, to_epsg, ==, str/repr/hash/authority) x target as object/text x 5 kinds x "
+                 "resolution {None, finite}; oracle transformer built from the definition texts"),
         e1.Slice("to_crs-same", gen_same(tier), run_same,
                  "3 CRSs x 6 spellings of the geometry's CRS x 6 spellings of the target x kinds x resolution"),
         e1.Slice("to_crs-nocrs", gen_nocrs(tier), run_nocrs,
@@ -1138,6 +1325,7 @@ def main(ctx):
         "crs_pairs": [f"{a}->{b}" for a, b, _ in DPAIRS],
         "to_crs_resolutions_in_steps": [repr(x) for x in TRES] + ["auto"],
         "to_crs_flags": list(FLAGS),
+        "stale_id_definitions": [d[0] for d in STALE_DEFS], "stale_id_histories": list(STALE_HIST),
         "long_edge_steps": list(LK), "long_edge_directions": [list(d) for d in LDIRS],
         "long_edge_crs_pairs": [f"{a}->{b} resolution {r}" for a, b, r, _ in LPAIRS],
         "tolerances": {"same-crs geometry": "1e-9*(|coord|+edge length)", "vertex vs pyproj": "1e-9*(|value|+1)",
@@ -1154,6 +1342,10 @@ def main(ctx):
         "densification is requested",
         "same CRS: the same object or an exactly equal geometry with an equal CRS is accepted as 'the input unchanged'",
         "all vertices lie inside the areas of use of both CRSs with |lon| <= 170 (asserted by the harness)",
+        "no multi-geometry with an EMPTY member is enumerated (shapely.segmentize crashes the process on this GEOS "
+        "for such input; a regression routing densification through it would kill a worker)",
+        "stale-id definitions: the harness asserts that pyproj itself sees the edited text as a different CRS "
+        "(to_epsg() is None) - EPSG:3857 is unusable for this because PROJ ignores edited pseudo-Mercator parameters",
         "the oracle transformer is pyproj.Transformer.from_crs(pyproj.CRS.from_epsg(a), pyproj.CRS.from_epsg(b), "
         "always_xy=True) built by the check; PROJ_NETWORK=OFF",
     ]
